@@ -777,6 +777,11 @@ func (engine *Engine) ServeHTTP(c context.Context, ctx *app.RequestContext) {
 	unescape := false
 	if engine.options.UseRawPath {
 		rPath = string(ctx.Request.URI().PathOriginal())
+		if rPath == "" && bytes.Contains(ctx.Request.Header.RequestURI(), bytestr.StrColonSlashSlash) {
+			// absolute-form target whose URI has no path ("http://host?q=1"): the path is "/",
+			// as it is for "http://host" and as URI.Path() reports it
+			rPath = "/"
+		}
 		unescape = engine.options.UnescapePathValues
 		// The raw path is routed on as it came: nothing resolves its dot segments, and CleanPath
 		// (RemoveExtraSlash) does not see those written as %2e or put behind %2f. A request whose
